@@ -271,12 +271,12 @@ def run_evolution(spec):
                         e1.run()
                     r1 = M.mps_to_dense(e1.psi).reshape(-1)
                     require(np.linalg.norm(r - r1) <= 1e-9 * n0, 'merged-steps-differ', 'N_steps=2 at once vs 2 x N_steps=1: |diff| = %r' % (np.linalg.norm(r - r1) / n0), **tags)
-            if errs[2] > 1e-9:  # (well above the rounding floor of the dense comparison)
+            if errs[2] > 1e-7:  # (well above the rounding floor of the dense comparison, observed up to 2e-9)
                 order = np.log2(errs[1] / errs[2])
                 require(order >= p - 0.5, 'order', 'errors %r on dt, dt/2, dt/4: observed order %.2f, documented %d' % (errs, order, p), **tags)
                 nontrivial = True
                 classes.append('order-measured')
-            elif errs[1] > 1e-9:
+            elif errs[1] > 1e-7:
                 order = np.log2(errs[0] / errs[1])
                 require(order >= p - 0.6, 'order', 'errors %r on dt, dt/2: observed order %.2f, documented %d' % (errs[:2], order, p), **tags)
                 nontrivial = True
